@@ -8,7 +8,7 @@ import cybuild
 
 def run(ctx):
     info = {}
-    parts = os.environ.get("C19_PARTS", "sw,obj,str").split(",")
+    parts = os.environ.get("C19_PARTS", "sw,obj,str,int").split(",")
     ctx.rule = ("(1) generated functions whose body is an if/elif/else chain or a boolean test over one C integer variable "
                 "(16 C types incl. enums, Py_UCS4) and compile-time constants (decimal/hex, suffixes U/L/LL, bool, char, enum, extern, "
                 "float; ==, !=, in/not in tuple/list/set/str/bytes literals, and/or/not), each evaluated on every constant +-1, "
@@ -16,13 +16,15 @@ def run(ctx):
                 "(2) comparison chains of 1-4 links and x [not] in (...) with 1-4 items on logging objects in random worlds "
                 "(operands / comparisons / truth tests may raise, identical objects); distinct by (function, world); "
                 "(3) 12 characters x strings of all PEP 393 kinds (surrogates, NUL), byte strings with equal prefixes / NULs / empty, "
-                "C integers in and outside range(256) for bytes membership")
+                "C integers in and outside range(256) for bytes membership; (4) int pairs at every digit-count boundary (2^30k +-1, "
+                "k <= 10), pairs equal in all but one 30-bit digit (every position), equal/unequal sign and size, bools and int "
+                "subclasses, floats (inf, nan, 2^53, 2^62, 2^1024) x six operators x value/truth context, chains, if/elif, untyped and int-typed")
     ctx.explanation = ("Theorems cover: the switch rewriting (all chains/values; valid C labels), cascaded comparison evaluation (all worlds, "
                        "lengths), the flattened membership test on tuples/lists (partial: identity shortcut and != excluded by "
-                       "hypotheses), the one-character unicode equality / membership helpers and the bytes comparison helpers. "
+                       "hypotheses), the one-character unicode equality / membership helpers, the bytes comparison helpers and __Pyx_PyObject_CompareIntInt (all six operators, ints of any digit count). "
                        "No theorem covers: typed/mixed C-Python operand coercion in chains, membership in dict/set/str/list OBJECTS "
                        "(PyDictContains, PySetContains, PySequenceContains, PyUnicode_ContainsTF: thin wrappers of the C-API), set literals "
-                       "(hashing), general str==str (delegates to PyUnicode_Compare), int/float PyObjectCompare fast paths (C02) - these are "
+                       "(hashing), general str==str (delegates to PyUnicode_Compare), the float/float, int/float and float/int PyObjectCompare helpers - these are "
                        "differentially checked against CPython only. C comparisons whose constant does not fit the promoted type of the "
                        "variable follow C conversions by design (theorem c_compare_ne_python, finding c-compare-conversion).")
     ctx.assumptions = ["LP64 (int 32, long/long long 64), gcc converts out-of-range case labels modulo 2^bits",
@@ -40,6 +42,7 @@ def run(ctx):
     sw = importlib.import_module("props.c19_sw")
     obj = importlib.import_module("props.c19_obj")
     st = importlib.import_module("props.c19_str")
+    it = importlib.import_module("props.c19_int")
     # the object / string modules are built in the background while the switch part runs
     builds, ost = [], None
     if "obj" in parts:
@@ -47,14 +50,16 @@ def run(ctx):
         builds += ost["builds"]
     if "str" in parts:
         builds.append(("c19str", st.module_source()))
+    if "int" in parts:
+        builds.append(("c19int", it.module_source(), ".py"))
 
     def bg(b):
         try:
-            cybuild.build_module(ctx, b[0], b[1])
+            cybuild.build_module(ctx, b[0], b[1], **({"ext": b[2]} if len(b) > 2 else {}))
         except cybuild.BuildError:
             pass            # reported by the part that needs the module
 
-    with cf.ThreadPoolExecutor(max_workers=3) as ex:
+    with cf.ThreadPoolExecutor(max_workers=4) as ex:
         futs = [ex.submit(bg, b) for b in builds]
         t0 = ctx.elapsed()
         if "sw" in parts:
@@ -68,5 +73,7 @@ def run(ctx):
     t3 = ctx.elapsed()
     if "str" in parts:
         st.run(ctx, info)
-    info["seconds(switch,wait,objects,strings)"] = [round(t1 - t0), round(t2 - t1), round(t3 - t2), round(ctx.elapsed() - t3)]
+    if "int" in parts:
+        it.run(ctx, info)
+    info["seconds(switch,wait,objects,strings+ints)"] = [round(t1 - t0), round(t2 - t1), round(t3 - t2), round(ctx.elapsed() - t3)]
     ctx.notes.update(info)
